@@ -493,6 +493,28 @@ pub fn check_one(model: &ZoneModel, tl: &Timeline, zr: TimeZoneRef<'_>, f: &Fiel
     }
     if focus == Focus::C17 {
         check_find_n(&list, f, zr, stale, st, &desc)?;
+        // "returns the same error when the allocating search fails": the searched fields with ONE field made invalid (hour 24,
+        // minute 60 / 255, second 61, month 0 / 13, day 0 / 32, a day the month does not have, nanoseconds 1e9) through both entry
+        // points and three buffer lengths — both must refuse, alike (operator sweep 3: `check_date_time_inputs(.., hour, hour, ..)`)
+        if f.ns % 8 == 0 {
+            let bad: [(u8, u8, u8, u8, u8, u32); 12] = [(0, f.d, f.h, f.mi, f.s, f.ns), (13, f.d, f.h, f.mi, f.s, f.ns), (f.mo, 0, f.h, f.mi, f.s, f.ns), (f.mo, 32, f.h, f.mi, f.s, f.ns), (2, 30, f.h, f.mi, f.s, f.ns), (f.mo, f.d, 24, f.mi, f.s, f.ns), (f.mo, f.d, f.h, 60, f.s, f.ns), (f.mo, f.d, f.h, 255, f.s, f.ns), (f.mo, f.d, f.h, f.mi, 61, f.ns), (f.mo, f.d, f.h, f.mi, 255, f.ns), (f.mo, f.d, f.h, f.mi, f.s, 1_000_000_000), (f.mo, f.d, 23u8.min(f.h), f.mi.max(60), f.s, f.ns)];
+            for (mo, d, h, mi, s, ns) in bad {
+                st.eval(1);
+                let a = DateTime::find(f.y, mo, d, h, mi, s, ns, zr).map(|l| l.into_inner().len());
+                for n in [0usize, 1, 3] {
+                    let mut buf: Vec<Option<FoundDateTimeKind>> = vec![None; n];
+                    let b = DateTime::find_n(&mut buf, f.y, mo, d, h, mi, s, ns, zr).map(|l| l.count());
+                    let same = match (&a, &b) {
+                        (Err(x), Err(y)) => format!("{x:?}") == format!("{y:?}") && matches!(x, tz::TzError::DateTime(_)),
+                        _ => false,
+                    };
+                    if !same {
+                        return Err(format!("{}: with the invalid fields ({}, {mo}, {d}, {h}, {mi}, {s}, {ns}) the allocating search gives {a:?} and find_n(len {n}) gives {b:?}; both must refuse with the same date-time error", desc(), f.y));
+                    }
+                }
+                st.class("invalid_fields_refused_alike");
+            }
+        }
     }
     if st.wants_sample("search") && nt {
         st.sample("search", || json!({"transitions": z.trans.len(), "trailer": format!("{:?}", z.trailer).chars().take(60).collect::<String>(), "leaps": z.leaps.len(), "local": f, "expected": format!("{exp:?}")}));
